@@ -99,18 +99,28 @@ func buildVestingWorld(r *kernel.Rng, o vestingWorldOpts) (*kernel.WorldSpec, *v
 		owners := r.Range(1, 3)
 		for i := 0; i < owners; i++ {
 			owner := spec.Clients[r.Intn(len(spec.Clients))]
-			dup := false
+			// an owner appears once - or, with TwoSpellings, at most once per spelling (lower case, upper case)
+			spelled := map[string]bool{}
 			for _, avp := range vg.AccountVestingPools {
-				if strings.EqualFold(avp.Owner, kernel.ActorBech(owner)) && !(o.TwoSpellings && avp.Owner != kernel.ActorBech(owner)) {
-					dup = true
+				if strings.EqualFold(avp.Owner, kernel.ActorBech(owner)) {
+					spelled[avp.Owner] = true
 				}
-			}
-			if dup {
-				continue
 			}
 			avp := &vtypes.AccountVestingPools{Owner: kernel.ActorBech(owner)}
 			if r.Intn(10) == 0 {
 				avp.Owner = strings.ToUpper(avp.Owner) // the genesis file spells the owner in upper case (valid bech32)
+			}
+			if len(spelled) > 0 {
+				if !o.TwoSpellings || len(spelled) > 1 {
+					continue
+				}
+				if spelled[avp.Owner] { // use the other spelling
+					if avp.Owner == kernel.ActorBech(owner) {
+						avp.Owner = strings.ToUpper(avp.Owner)
+					} else {
+						avp.Owner = kernel.ActorBech(owner)
+					}
+				}
 			}
 			np := r.Range(1, 3)
 			for k := 0; k < np; k++ {
